@@ -30,6 +30,7 @@ K_FIXED_OFFSET, K_START_POS, K_FULLWORD_LEN, K_GLOBAL_REFS, K_LIST_UNDEF, K_HIGH
 K_EMPTY_CLASS = 17
 K_SPAN_PANIC = 18
 K_ALT_FIRST = 19
+K_WIDE_ASCII_WB = 20
 
 
 # ------------------------------------------------------------------ printing
@@ -531,10 +532,41 @@ def gen_raw_fullword(rng, name):
     return {"name": name, "kind": "regex", "node": node, "ci": False, "da": rng.chance(1, 3), "mods": mods, "raw": True}
 
 
+def gen_wide_wb(rng, name):
+    """a `wide` regex with \\b / \\B (or an anchor), mostly without a literal long enough to be an atom, with exactly one
+    of nocase and /s most of the time: boreal scans these with its own walk over the wide text and a helper regex
+    built from the same flags (`/\\b[a-z]{4}\\b/ nocase wide`, `/^MZ\\b/ wide`, `/\\bend$/s wide`)"""
+    def lit(c):
+        return ["lit", c, 0]
+    letters = rng.choice([b"MZ", b"end", b"Ab", b"xY", b"aB1", b"Qq"])
+    az = ["class", rng.choice([["br", [["range", 0x61, 0x7a]], False], ["br", [["range", 0x41, 0x5a]], False],
+                               ["perl", "w", False], ["br", [["range", 0x61, 0x63], ["lit", 0x78]], False]])]
+    wb = ["assert", "wb"]
+    form = rng.below(6)
+    if form == 0:
+        node = ["cat", [wb, ["rep", az, ["n", rng.range(2, 4)], True], wb]]
+    elif form == 1:
+        node = ["cat", [["assert", "start"]] + [lit(c) for c in letters] + [wb]]
+    elif form == 2:
+        node = ["cat", [wb] + [lit(c) for c in letters] + [["assert", "end"]]]
+    elif form == 3:
+        node = ["cat", [lit(letters[0]), ["dot"], ["assert", rng.choice(["wb", "nwb"])], lit(letters[-1])]]
+    elif form == 4:
+        node = ["cat", [wb, az, ["dot"], az, wb]]
+    else:
+        node = ["cat", [["assert", "nwb"], ["rep", az, ["n", 2], True], wb]]
+    r = rng.below(8)
+    nocase, da = (True, False) if r < 3 else (False, True) if r < 6 else (True, True) if r == 6 else (False, False)
+    mods = {"nocase": nocase, "wide": True, "ascii": rng.chance(1, 4), "fullword": False}
+    return {"name": name, "kind": "regex", "node": node, "ci": False, "da": da, "mods": mods, "wwb": True}
+
+
 def gen_string(rng, name):
-    k = rng.below(11)
+    k = rng.below(12)
     if k == 10:
         return gen_raw_fullword(rng, name)
+    if k == 11:
+        return gen_wide_wb(rng, name)
     if k < 4:
         for _ in range(20):
             d = c01.gen_decl(rng)
@@ -603,6 +635,15 @@ def member(rng, s, alphabet):
     if k == "hex":
         return hex_member7(rng, s["toks"], alphabet)[:48], False
     m = s["mods"]
+    if s.get("wwb"):
+        # wide text with word / non-word / newline neighbours
+        alpha = [0x61, 0x62, 0x78, 0x41, 0x5a, 0x4d, 0x0a, 0x20, 0x31, 0x65, 0x6e, 0x64, 0x59, 0x51, 0x71]
+        b = c03.sample(rng, s["node"], m["nocase"], s["da"], alpha)
+        pre = rng.choice([b"", b" ", b"a", b"\n", b"-", b"Z"])
+        post = rng.choice([b"", b" ", b"b", b"\n", b".", b"1"])
+        if m["ascii"] and rng.chance(1, 3):
+            return (pre + b + post)[:30], False
+        return c03.widen(pre + b + post)[:40], True
     if s.get("raw"):
         # overlapping candidates: an alphanumeric byte, then two or three members end to end
         alpha = [0x30, 0x31, 0x39, 0x3a, 0x61, 0x62, 0x2d, 0x2e, 0x20, 0x5f, 0x41, 0x78]
@@ -649,11 +690,29 @@ def gen_input(rng, strings, limit=72, hints=None):
     return b"".join(parts)[:limit + 24]
 
 
+def computed_bound_atom(rng, v):
+    """`in` / `at` / `#s in` with a bound computed from filesize, negative on the shorter inputs (libyara's compiler
+    rejects negative literal bounds, not computed ones)"""
+    K = rng.choice([1, 5, 20, 50, 100, 1000])
+    lo = ("bin", "sub", ("filesize",), ("int", K))
+    hi = rng.choice([("filesize",), ("bin", "sub", ("filesize",), ("int", rng.choice([0, 1, 3]))), ("int", 1000)])
+    c = rng.below(4)
+    if c == 0:
+        return ("varin", v, lo, hi)
+    if c == 1:
+        return ("bin", rng.choice(["ge", "eq", "gt"]), ("countin", v, lo, hi), ("int", rng.choice([0, 1, 2])))
+    if c == 2:
+        return ("varat", v, lo)
+    return ("varin", v, ("bin", "sub", ("count", v), ("int", rng.choice([1, 2, 3]))), hi)
+
+
 def hinted_atom(rng, v, o, l):
     """conditions aimed at the boundaries of a (probable) match of string v at offset o"""
-    k = rng.below(8)
+    k = rng.below(10)
     d = rng.choice([0, 0, 0, 1, -1])
     o1 = max(0, o + d)
+    if k >= 8:
+        return computed_bound_atom(rng, v)
     if k == 0:
         return ("varat", v, ("int", o1))
     if k == 1:
@@ -755,6 +814,8 @@ def gen_case(rng, kf_global=False):
         def leaf():
             c = rng.below(13)
             if c == 12:
+                if nstr and rng.chance(1, 3):
+                    return computed_bound_atom(rng, rng.below(nstr))
                 return nested_of_atom(rng, nstr) if nstr else ("bool", True)
             if c < 3 and mine:
                 return hinted_atom(rng, *rng.choice(mine))
@@ -800,6 +861,71 @@ def gen_case(rng, kf_global=False):
     return case
 
 
+def entropy_py(b):
+    import math
+    if not b:
+        return 0.0
+    cnt = [0] * 256
+    for x in b:
+        cnt[x] += 1
+    return -sum(c / len(b) * math.log2(c / len(b)) for c in cnt if c)
+
+
+def gen_float_probe(rng, mem, mods):
+    """integer against float, both operand orders, where the fractional part decides (floats are outside the Gallina
+    dialect: compared boreal vs libyara only).  Returns (imports, strings, condition text)."""
+    pat = mem[:2] if len(mem) >= 2 and rng.chance(2, 3) else b"ab"
+    d = {"text": pat.hex(), "ascii": False, "wide": False, "nocase": False, "fullword": False, "xor": None, "b64": None}
+    strings = [{"name": "_s0", "kind": "text", "decl": d}]
+    offs = cond.find_all(mem, pat)
+    ints = [(str(v), v) for v in (0, 1, 2, 7)] + [("#_s0", len(offs)), ("filesize", len(mem)), ("!_s0[1]", 2 if offs else None),
+                                                  ("@_s0[1]", offs[0] if offs else None),
+                                                  ("uint8(0)", mem[0] if mem else None)]
+    itext, ival = rng.choice(ints)
+    base = ival if ival is not None else 1
+    imports = []
+    c = rng.below(6)
+    if c < 4 or "math" not in mods:
+        f = base + rng.choice([0.5, -0.5, 0.25, 0.0, 0.75, 1.5])
+        ftext = "%.2f" % abs(f)          # (no unary minus on a float literal: kept non-negative)
+    elif c == 4:
+        imports = ["math"]
+        ftext = "math.entropy(0, filesize)"
+        itext = str(int(entropy_py(mem)) + rng.choice([0, 1]))
+    else:
+        imports = ["math"]
+        ftext = "math.mean(0, filesize)"
+        itext = str((sum(mem) // len(mem) if mem else 0) + rng.choice([0, 1]))
+    op = rng.choice(["<", "<=", ">", ">=", "==", "!="])
+    text = "%s %s %s" % ((itext, op, ftext) if rng.chance(1, 2) else (ftext, op, itext))
+    return imports, strings, "(%s) and #_s0 >= 0" % text
+
+
+def add_percent_rule(rng, case):
+    """a rule with many strings and `P% of them`, P*n a multiple of 100 more often than not, a different number of
+    matching strings in each input (two-way only: libyara's test is made in binary64)"""
+    n = rng.choice([4, 5, 8, 10, 20, 25])
+    names = ["k%02dz" % i for i in range(n)]
+    strings = [{"name": "_k%d" % i, "kind": "text",
+                "decl": {"text": t.encode().hex(), "ascii": False, "wide": False, "nocase": False, "fullword": False,
+                         "xor": None, "b64": None}} for i, t in enumerate(names)]
+    k = rng.range(1, n)
+    exact = [p for p in range(1, 101) if (p * n) % 100 == 0]
+    P = rng.choice(exact) if exact and rng.chance(2, 3) else max(1, min(100, (100 * k) // n + rng.choice([0, 1, -1])))
+    need = -((-P * n) // 100)
+    new_inputs = []
+    for j, h in enumerate(case["inputs"]):
+        f = max(0, min(n, need + [0, -1, 1][j % 3]))
+        pick = rng.shuffle(names)[:f]
+        new_inputs.append(h + " ".join(pick).encode().hex())
+    case["inputs"] = new_inputs
+    r = {"ns": case["rules"][-1]["ns"], "name": "pc", "global": False, "private": False, "strings": strings,
+         "cond": ("raw", "%d%% of them" % P), "id": len(case["rules"]), "tail": False,
+         "ord_index": sum(1 for x in case["rules"] if not x["global"])}
+    case["rules"].append(r)
+    return case
+
+
 def add_probes(rng, case, mods):
     """append 1-2 module probe rules (conditions outside the Gallina dialect: compared boreal vs libyara only)"""
     mem = bytes.fromhex(case["inputs"][0])
@@ -813,6 +939,12 @@ def add_probes(rng, case, mods):
              "cond": ("raw", text), "id": len(case["rules"]), "tail": False,
              "ord_index": sum(1 for x in case["rules"] if not x["global"])}
         case["rules"].append(r)
+    if rng.chance(1, 2):
+        imps, strings, text = gen_float_probe(rng.fork("fp"), mem, mods)
+        imports.update(imps)
+        case["rules"].append({"ns": case["rules"][-1]["ns"], "name": "fp", "global": False, "private": False,
+                              "strings": strings, "cond": ("raw", text), "id": len(case["rules"]), "tail": False,
+                              "ord_index": sum(1 for x in case["rules"] if not x["global"])})
     case["imports"] = sorted(imports)
     return case
 
@@ -832,7 +964,7 @@ class C07(Prop):
     KF = {K_FIXED_OFFSET: "C07-fixed-offset-listing", K_START_POS: "C07-start-position", K_FULLWORD_LEN: "C07-fullword-single-length",
           K_GLOBAL_REFS: "C07-global-refs-ordinary", K_LIST_UNDEF: "C07-list-undefined-element",
           K_HIGH_BYTE_ORDER: "C07-string-order-high-bytes", K_UNDEF_QUANT: "C07-undefined-quantifier",
-          K_ALT_FIRST: "C07-hex-alt-first-uneven"}
+          K_ALT_FIRST: "C07-hex-alt-first-uneven", K_WIDE_ASCII_WB: "C07-wide-ascii-boundary"}
     # classes 17 (C07-empty-class, fixed 861b829) and 18 (C07-regex-span-panic, fixed c526a27) are no longer produced
     RULE = ("generated rule files of the shared dialect: 1-4 rules over 1-2 namespaces (global / private / plain, "
             "references to earlier rules and to global rules), 0-3 strings per rule drawn from the C01 text generator "
@@ -874,6 +1006,8 @@ class C07(Prop):
             c = gen_case(r)
             if mods and r.chance(3, 5):
                 add_probes(r.fork("probe"), c, mods)
+            if r.chance(1, 12) and not any(heavy_regex(x) for rl in c["rules"] for x in rl["strings"]):
+                add_percent_rule(r.fork("pct"), c)
             out.append(json.loads(json.dumps(c, default=lambda b: list(b))))
         return out
 
